@@ -8,7 +8,7 @@ CONSTANTS
   Outs = {"ok", "err", "panic", "pnil", "exit", "nilfn"}
   Fins = {"none", "commit", "rollback"}
   CancelOn = TRUE
-  DbStates = {"ok", "nobegin", "err"}
+  DbStates = {"ok", "nobegin", "err", "zero"}
   Depth = 40
 INVARIANTS Emit
 CHECK_DEADLOCK FALSE
